@@ -615,4 +615,116 @@ func (p *Program) regionWrites(e *Effects, fn *ssa.Function) []Write {
 	return out
 }
 
+// ---------------------------------------------------------------------------
+// Rooted regions: the functions reached from one anchor, each with the chain of call sites that leads to it
+// ---------------------------------------------------------------------------
+
+// regionNode is a function of fn's region together with the call chain from the anchor (outermost first) and the
+// binding of the helper parameters along that chain.
+type regionNode struct {
+	fn    *ssa.Function
+	chain []ssa.CallInstruction
+	bind  binding
+}
+
+// rootedRegion lists fn, its closures and - per call chain - the transparent helpers reached from them.
+func (p *Program) rootedRegion(fn *ssa.Function) []regionNode {
+	var out []regionNode
+	var add func(f *ssa.Function, chain []ssa.CallInstruction, bind binding, depth int)
+	add = func(f *ssa.Function, chain []ssa.CallInstruction, bind binding, depth int) {
+		for _, g := range allFuncsDeep(f) {
+			out = append(out, regionNode{g, chain, bind})
+			if depth > 3 {
+				continue
+			}
+			eachInstr(g, func(in ssa.Instruction) {
+				c, ok := in.(ssa.CallInstruction)
+				if !ok {
+					return
+				}
+				callee := c.Common().StaticCallee()
+				if callee == nil || !p.isTransparent(callee) {
+					return
+				}
+				nb := binding{}
+				for k, v := range bind {
+					nb[k] = v
+				}
+				for idx, par := range callee.Params {
+					if a := argAt(c, idx); a != nil {
+						nb[par] = bind.subst(a)
+					}
+				}
+				add(callee, append(append([]ssa.CallInstruction{}, chain...), c), nb, depth+1)
+			})
+		}
+	}
+	add(fn, nil, binding{}, 0)
+	return out
+}
+
+// fieldValuesIn: the origins of every value stored into field f within fn's rooted region, with the parameters
+// of the helpers on the way (a constructor newT(a, b, …)) replaced by the arguments of that call chain.
+func (p *Program) fieldValuesIn(fn *ssa.Function, f *types.Var) []ssa.Value {
+	var out []ssa.Value
+	for _, n := range p.rootedRegion(fn) {
+		n := n
+		eachInstr(n.fn, func(in ssa.Instruction) {
+			st, ok := in.(*ssa.Store)
+			if !ok {
+				return
+			}
+			fa, ok := st.Addr.(*ssa.FieldAddr)
+			if !ok || fieldOfAddr(fa) != f {
+				return
+			}
+			out = append(out, p.origins(n.bind.subst(st.Val), originOpts{})...)
+		})
+	}
+	return out
+}
+
+// guardedInChain: block b of region node n runs only when a fact satisfying pred holds, established inside its
+// function or at one of the call sites of the chain that leads to it from the anchor.
+func (p *Program) guardedInChain(n regionNode, b *ssa.BasicBlock, pred func(guardFact) bool) bool {
+	local := func(b *ssa.BasicBlock) bool {
+		fn := b.Parent()
+		if b == fn.Blocks[0] {
+			return false
+		}
+		goodEdge := func(from *ssa.BasicBlock, succ int) bool {
+			ifi := blockIf(from)
+			if ifi == nil || from.Succs[0] == from.Succs[1] {
+				return false
+			}
+			fs, impossible := p.factsWhen(ifi.Cond, succ == 0)
+			if impossible {
+				return true
+			}
+			for _, f := range fs {
+				if f.If == nil {
+					f.If = ifi
+				}
+				if pred(f) {
+					return true
+				}
+			}
+			return false
+		}
+		q := pathQuery{fn: fn, target: func(x ssa.Instruction) bool { return x.Block() == b },
+			edgeOK: func(from *ssa.BasicBlock, succ int) bool { return !goodEdge(from, succ) }}
+		w, _ := q.find()
+		return w == nil
+	}
+	if local(b) {
+		return true
+	}
+	for k := len(n.chain) - 1; k >= 0; k-- {
+		if local(n.chain[k].Block()) {
+			return true
+		}
+	}
+	return false
+}
+
 var _ = types.Typ
